@@ -470,6 +470,15 @@ class Facts:
             self.raw = json.load(f)
         from . import inline
         self.n_inlined = inline.inline_all(self.raw)
+        # content hashes of the analysed sources, taken at load time (scratch copies are removed soon after)
+        import hashlib, glob, os
+        self.cwd = self.raw.get('cwd') or '/repo'
+        self.source_sha = {}
+        for fpath in glob.glob(os.path.join(self.cwd, 'src', '**', '*.rs'), recursive=True):
+            try:
+                self.source_sha[os.path.relpath(fpath, self.cwd)] = hashlib.sha256(open(fpath, 'rb').read()).hexdigest()
+            except OSError:
+                pass
         self.bodies = []
         self.by_path = {}
         for j in self.raw['bodies']:
